@@ -266,11 +266,12 @@ def replay(case, M):
 def jobs(tier):
     th = tier == "thorough"
     J = []
-    for mode in (C.MODES4 if th else ["gregorian", "360day"]):
+    for mode in (C.MODES4 if th else ["gregorian", "360day", "366day"]):
         greg = mode == "gregorian"
         last = {"gregorian": 366, "360day": 360, "365day": 365, "366day": 366}[mode]
         W = [{"DOY": (1, 2)}, {"DOY": (59, 60)}, {"DOY": (last - 2, last)}]
-        for fmt in (3, 4, 1):
+        only_cal = mode == "366day" and not th      # quick tier: this mode runs the calendar-anchored jobs only
+        for fmt in (3, 4, 1) if not only_cal else ():
             for reps in (1, 2, 3, None) if not th else (1, 2, 3, 4, None):
                 units = [("hours", 0, 50), ("days", 0, 400)]
                 if greg and fmt != 1:
@@ -290,7 +291,17 @@ def jobs(tier):
                 for reps in (2, 3, None):
                     for unit, lo, hi in (("hours", 0, 50), ("days", 0, 40)):
                         J.append(("job_iter", dict(mode=mode, fmt=fmt, reps=reps, unit=unit, lo=lo, hi=hi, ranges=W[2], a24=True)))
-        for reps in (2, 3):
+        # exact intervals from anchors written as calendar dates (around the end of February and the year end) and
+        # as week dates (weeks 8-10 and 52-53; year residue pinned mod 400, cycle index symbolic)
+        for fmt in (1, 3, 4):
+            for reps in (3, None):
+                for rg in ({"M": (2, 3), "D": (13, 16)}, {"M": (12, 12), "D": (18, 22)}):
+                    J.append(("job_iter", dict(mode=mode, fmt=fmt, reps=reps, unit="days", lo=0, hi=40, rep="cal", ranges=rg)))
+                if greg:
+                    for wk in ((8, 10), (52, 53)):
+                        J.append(("job_iter", dict(mode=mode, fmt=fmt, reps=reps, unit="days", lo=0, hi=20, rep="week",
+                                                   ranges={"W": wk}, pins=C.residue_pins(104 if wk[0] == 8 else 4))))
+        for reps in (2, 3) if not only_cal else ():
             for w in W[1:]:
                 J.append(("job_notations", dict(mode=mode, reps=reps, unit="hours", lo=1, hi=50, ranges=w)))
                 J.append(("job_notations", dict(mode=mode, reps=reps, unit="days", lo=1, hi=40, ranges=w)))
@@ -316,10 +327,10 @@ INFO = {
                    "is the previous one +/- the interval, the bounded series includes its anchor and increases strictly.",
     "bounds": {"quick": {"anchors": "ordinal dates on days 1-2, 59-60, 364-366 (exact) / every calendar date (nominal), any year -1 000 000..999 999, offsets +-3:59, any whole-second time",
                          "intervals": "hours 0..50, days 0..400 (gregorian start/duration and duration/end also seconds 0..4000, minutes 0..1500, weeks 0..60; start/second-point: hours 0..30, days 0..40); nominal (start/duration and duration/end): P1M, P2M, P1M2D, P1Y, P1Y1M",
-                         "repetitions": "1, 2, 3 and unbounded (first 4 points)", "modes": "gregorian, 360day (nominal: gregorian)"},
+                         "repetitions": "1, 2, 3 and unbounded (first 4 points)", "modes": "gregorian, 360day; 366day for the calendar-date anchors (nominal: gregorian)"},
                "thorough": {"repetitions": "1..4 and unbounded", "modes": "all 4 (seconds / minutes / weeks intervals and all three anchor windows in gregorian)"}},
     "outside": ["more than 4 repetitions / points", "multi-unit symbolic intervals", "min_point/max_point subsets",
-                "anchors in calendar or week representation for exact intervals"],
+                "anchors in calendar or week representation for exact intervals other than the stated windows (calendar: 13-16 Feb/Mar and 18-22 Dec with day intervals up to 40; week dates: weeks 8-10 and 52-53 of the years = 104 / 4 mod 400, day intervals up to 20)"],
     "assumptions": ["nominal single steps (p + interval) are the real additions verified by C05; this check compares the iterator against them"],
 }
 REQUIRED_SCENARIOS = {"all": ["anchor written as 24:00", "zero interval", "fmt1", "fmt3", "fmt4", "unbounded", "one repetition", "nominal interval",
